@@ -611,9 +611,40 @@ func implRobust(c robustCase) callRes {
 	})
 }
 
+func asciiOnlyLower(s string) bool {
+	b := []byte(s)
+	for i, c := range b {
+		if c >= 'A' && c <= 'Z' {
+			b[i] = c + 32
+		}
+	}
+	return strings.ToLower(s) == string(b)
+}
+
 func runRobust(sec *vh.Section, cases []robustCase, verbose bool) {
 	impl := make([]callRes, len(cases))
 	parallel(len(cases), func(i int) { impl[i] = implRobust(cases[i]) })
+	// MODEL where there is one: NewFormatParser (format strings on which strings.ToLower is ASCII lower-casing) and the nesting
+	// guard / depth counter (texts made of parentheses around one condition)
+	var ml []string
+	var mi []int
+	for i, c := range cases {
+		s := string(vh.UnHx(c.S))
+		if c.Kind == "format" && asciiOnlyLower(s) {
+			ml, mi = append(ml, "fmt.parse "+c.S), append(mi, i)
+		}
+		if c.Kind == "expr" && strings.HasSuffix(strings.TrimLeft(s, "("), "a=1"+strings.Repeat(")", len(s)-len(strings.TrimLeft(s, "(")))) {
+			ml, mi = append(ml, fmt.Sprintf("nest %d %s", 1<<30, c.S)), append(mi, i)
+		}
+	}
+	for k, a := range batch(ml) {
+		i := mi[k]
+		res.Dist(sec, cases[i].Kind+"/model-compared")
+		if modelKind(a) != impl[i].Kind {
+			res.Mismatch(vh.Mismatch{Section: "robust", Function: map[string]string{"format": "model.NewFormatParser", "expr": "lql.ParseExpr (nesting guard / depth)"}[cases[i].Kind],
+				Input: cases[i], Impl: impl[i].Kind, Model: a})
+		}
+	}
 	for i, c := range cases {
 		key := ""
 		if impl[i].Kind == "ok" && c.S != "-" {
@@ -854,24 +885,15 @@ func sectionRobust(rng *vh.Rng) {
 		}
 	}
 	// nesting to depth 2000 (stack use grows linearly; see the nesting case for the fatal end of this family)
-	var nl []string
-	var nd []int
-	for _, d := range []int{1, 2, 10, 100, 500, 1000, 2000} {
+	for _, d := range []int{1, 2, 10, 100, 500, 999, 1000, 1001, 2000} {
 		add("lql", "select where "+strings.Repeat("(", d)+"a=1"+strings.Repeat(")", d))
 		add("expr", strings.Repeat("(", d)+"a=1"+strings.Repeat(")", d))
 		add("where", strings.Repeat("not ", d)+"msg contains \"x\"")
 		add("lql", "select where "+strings.Repeat("(", d)+"a=1") // unbalanced
 		add("tagsexp", strings.Repeat("(", d)+"a=1"+strings.Repeat(")", d))
 		add("lql", "select from "+strings.Repeat("{", d))
-		nl = append(nl, fmt.Sprintf("nest %d %s", 1<<30, vh.HxS(strings.Repeat("(", d)+"a=1"+strings.Repeat(")", d))))
-		nd = append(nd, d)
 	}
 	runRobust(sec, cases, false)
-	for i, a := range batch(nl) {
-		if a != fmt.Sprintf("ok %d", nd[i]) {
-			res.Mismatch(vh.Mismatch{Section: "robust", Function: "Nesting.parse (depth counter)", Input: nd[i], Impl: fmt.Sprintf("ok %d", nd[i]), Model: a})
-		}
-	}
 	res.Done(sec)
 }
 
